@@ -237,7 +237,17 @@ func (g *exprGen) keyFor(e *ir.Expr) string {
 
 var cmpOps = []ir.Op{ir.OpLt, ir.OpLe, ir.OpGt, ir.OpGe}
 
+// of: an expression of kind k. Now and then a binary node gets the *same* sub-expression on both sides (`e == e`,
+// `e in e`, `e && e`, ...): reflexive shapes invite "obviously true" shortcuts that forget that e itself may fail.
 func (g *exprGen) of(k ir.Kind, depth int) *ir.Expr {
+	e := g.of0(k, depth)
+	if depth > 0 && len(e.Args) == 2 && e.Op != ir.OpIsIn && e.Op != ir.OpRecord && e.Op != ir.OpSet && e.Op != ir.OpExt && chance(g.t, 6, "dupoperand") {
+		e.Args[1] = e.Args[0].Clone()
+	}
+	return e
+}
+
+func (g *exprGen) of0(k ir.Kind, depth int) *ir.Expr {
 	t := g.t
 	if depth <= 0 {
 		if k == ir.KEntity {
